@@ -4,7 +4,7 @@
    Every theorem holds for ALL interpretations PyT / evalty / isinst / issub of Python's
    eval, isinstance and issubclass, all node and edge lists, all signatures and values. *)
 From Coq Require Import List String Bool ZArith NArith.
-From EKW Require Import Low.Builders Low.BuildersProofs Low.BuildersCheck.
+From EKW Require Import Low.Builders Low.BuildersProofs Low.BuildersCheck Low.BuilderValues Low.BuilderValuesProofs.
 Import ListNotations.
 Open Scope string_scope.
 Open Scope list_scope.
@@ -89,6 +89,52 @@ Theorem C19_earlier_builders_unchanged :
       forall i, i < List.length bs1 -> nth_error bs' i = nth_error bs1 i.
 Proof. exact tree_prefix_stable. Qed.
 
+(* (8) "The value given" is the WHOLE value.  A value is an atom (class, identity) or has parts
+   (sequence / mapping / instance with attributes: class and parts); the equalities of (4) and
+   (5) are equalities of such values, and the comparison the harness runs on every static it
+   observes in a task or a job is that equality. *)
+Theorem C19_value_comparison_is_equality : forall a b : value, value_eqb a b = true <-> a = b.
+Proof. exact value_eqb_eq. Qed.
+
+(* (9) Values given in one with_values call are still there -- the same values -- after any
+   number of further with_values calls on the derived builders, as long as those do not give
+   the same keyword / reach the same position again. *)
+Theorem C19_values_survive_later_calls :
+  forall (t : task) args kwargs (calls : list (list value * list (string * value))),
+    NoDup (map fst kwargs) ->
+    let t' := fold_left (fun t c => with_values t (fst c) (snd c)) calls (with_values t args kwargs) in
+    (forall k v, In (k, v) kwargs -> Forall (fun c => ~ In k (map fst (snd c))) calls -> lookup k (skw t') = Some v) /\
+    (forall i v, nth_error args i = Some v -> Forall (fun c => List.length (fst c) <= i) calls ->
+                 lookup (str_of_nat i) (sps t') = Some v).
+Proof.
+  intros t args kwargs calls Hnd t'. unfold t'. rewrite <- chain_id. split.
+  - intros k v Hin Hc. now apply chain_keeps_keyword.
+  - intros i v Hn Hc. now apply chain_keeps_position.
+Qed.
+
+(* (10) with_values derives the new builder by a shallow copy: it is the rebuild that hands every
+   value already held on unchanged.  A rebuild that converts the values it holds (a round trip
+   through a serialised form, a normalising deep copy) still stores the values of the current
+   call as given, but carries the EARLIER values exactly when the conversion leaves each of
+   them alone. *)
+Theorem C19_with_values_is_shallow_rebuild :
+  forall t args kwargs, with_values_via (fun v => v) t args kwargs = with_values t args kwargs.
+Proof. exact with_values_via_id. Qed.
+
+Theorem C19_rebuild_carries_earlier_values_iff :
+  forall conv (t : task) args kwargs,
+    let t' := with_values_via conv t args kwargs in
+    ((forall k, ~ In k (map fst kwargs) -> lookup k (skw t') = lookup k (skw t)) <->
+     (forall k v, ~ In k (map fst kwargs) -> lookup k (skw t) = Some v -> conv v = v)) /\
+    ((forall s, (forall i, i < List.length args -> s <> str_of_nat i) -> lookup s (sps t') = lookup s (sps t)) <->
+     (forall s v, (forall i, i < List.length args -> s <> str_of_nat i) -> lookup s (sps t) = Some v -> conv v = v)).
+Proof. intros. split; [apply via_carries_keywords_iff|apply via_carries_positions_iff]. Qed.
+
+(* one such conversion: instances with attributes become plain dicts of their attributes; it
+   leaves a value alone exactly when no such instance occurs anywhere inside it *)
+Theorem C19_flatten_fixes_iff : forall key v, flatten key v = v <-> obj_free v = true.
+Proof. exact flatten_fixes_iff. Qed.
+
 (* ------------------------------------------------------------------ non-vacuity *)
 Definition ex_src : task := T (TD [] [("0", "bool"); ("1", "str")]) [] [].
 Definition ex_snk : task :=
@@ -149,6 +195,41 @@ Example C19_earlier_builders_unchanged_nonvacuous :
              List.length bs = 5.
 Proof. eexists. split; [vm_compute; reflexivity|reflexivity]. Qed.
 
+(* (8): two values of the same class with different parts; a dict is not the instance it was made from *)
+Definition ex_area : value := VObj ODataclass "Area" [("north", V "float" 20); ("south", V "float" 21)].
+Definition ex_key (s : string) : value := V s 0.
+Example C19_value_comparison_is_equality_nonvacuous :
+  value_eqb ex_area ex_area = true /\
+  value_eqb ex_area (VObj ODataclass "Area" [("north", V "float" 20); ("south", V "float" 22)]) = false /\
+  value_eqb ex_area (flatten ex_key ex_area) = false /\
+  value_eqb (VSeq "list" [ex_area]) (VSeq "MyList" [ex_area]) = false.
+Proof. vm_compute. auto. Qed.
+
+(* (9): request and area given first, two further calls (a keyword, then a position) *)
+Definition ex_retrieve : task := T (TD [("request", "Any"); ("area", "Any"); ("grid", "Any")] [("0", "Any")]) [("grid", V "tuple" 13)] [].
+Example C19_values_survive_later_calls_nonvacuous :
+  let t' := fold_left (fun t c => with_values t (fst c) (snd c))
+                      [([], [("grid", V "tuple" 14)]); ([V "int" 1], [])]
+                      (with_values ex_retrieve [] [("request", VObj OPydantic "Req" [("param", V "str" 6)]); ("area", ex_area)]) in
+  lookup "area" (skw t') = Some ex_area /\ lookup "grid" (skw t') = Some (V "tuple" 14) /\ lookup "0" (sps t') = Some (V "int" 1).
+Proof. vm_compute. auto. Qed.
+
+(* (10): the flattening rebuild stores the new value but hands back the area given earlier as a dict
+   (the right-hand side of the equivalence fails for it), while it leaves a list of numbers alone *)
+Example C19_rebuild_carries_earlier_values_iff_nonvacuous :
+  let t := with_values ex_retrieve [] [("area", ex_area); ("request", VSeq "list" [V "int" 1])] in
+  let t' := with_values_via (flatten ex_key) t [] [("grid", V "tuple" 14)] in
+  lookup "grid" (skw t') = Some (V "tuple" 14) /\
+  lookup "request" (skw t') = lookup "request" (skw t) /\
+  lookup "area" (skw t') = Some (VMap "dict" [(V "north" 0, V "float" 20); (V "south" 0, V "float" 21)]) /\
+  lookup "area" (skw t) = Some ex_area /\ flatten ex_key ex_area <> ex_area.
+Proof. vm_compute. repeat split; auto. discriminate. Qed.
+
+Example C19_flatten_fixes_iff_nonvacuous :
+  obj_free (VMap "dict" [(V "str" 1, VSeq "tuple" [V "int" 1; V "ndarray" 2])]) = true /\
+  obj_free (VSeq "list" [VMap "dict" [(V "str" 1, ex_area)]]) = false.
+Proof. vm_compute. auto. Qed.
+
 Print Assumptions C19_accepted_job_wellformed.
 Print Assumptions C19_problems_returned_otherwise.
 Print Assumptions C19_build_never_raises.
@@ -157,3 +238,8 @@ Print Assumptions C19_job_carries_bound_task.
 Print Assumptions C19_job_carries_edge.
 Print Assumptions C19_signature_to_schema.
 Print Assumptions C19_earlier_builders_unchanged.
+Print Assumptions C19_value_comparison_is_equality.
+Print Assumptions C19_values_survive_later_calls.
+Print Assumptions C19_with_values_is_shallow_rebuild.
+Print Assumptions C19_rebuild_carries_earlier_values_iff.
+Print Assumptions C19_flatten_fixes_iff.
